@@ -50,7 +50,7 @@ func (w *World) keepReason(mr *MRepo, d string, now time.Time) string {
 	}
 	keep := w.m.mustKeep(mr, now)
 	for pd, p := range mr.mans {
-		if !keep[pd] || pd == d {
+		if keep[pd] < keepMan || pd == d {
 			continue
 		}
 		for _, c := range p.view.refs {
@@ -65,7 +65,7 @@ func (w *World) keepReason(mr *MRepo, d string, now time.Time) string {
 			}
 		}
 	}
-	if isMan && x.view.subject != "" && keep[x.view.subject] {
+	if isMan && x.view.subject != "" && keep[x.view.subject] == keepMan {
 		if _, ok := mr.mans[x.view.subject]; ok {
 			roles = append(roles, "referrer of a retained subject")
 		}
@@ -108,7 +108,7 @@ func (w *World) checkRetained() {
 			if !isBlob && !isMan {
 				continue // named by a manifest but never pushed here
 			}
-			if (isBlob && b.maybeGone) || (isMan && x.maybeGone) || mr.blobDeleted[d] {
+			if (isBlob && b.maybeGone) || (isMan && keep[d] == keepMan && x.maybeGone) || mr.blobDeleted[d] {
 				continue // was legitimately collectable at an earlier opportunity
 			}
 			if isBlob {
@@ -124,7 +124,7 @@ func (w *World) checkRetained() {
 					return
 				}
 			}
-			if isMan {
+			if isMan && keep[d] == keepMan {
 				r := w.do(reqSpec{method: "GET", path: "/v2/" + repo + "/manifests/" + d, hdr: map[string][]string{"Accept": sortedKeys(x.mts)}, repos: []string{repo}})
 				if r.Code != 200 {
 					w.x.viol([]string{"C05"}, "gc.removed-retained", w.keepReason(mr, d, now), fmt.Sprintf("after a collection, manifest %s in %s (%s) answers %d %v; policy untagged=%v dangling=%v withsubj=%v grace=%s", d, repo, w.keepReason(mr, d, now), r.Code, w.errCodes(r), w.k.untagged(), w.k.refDangling(), w.k.refWithSubj(), w.k.grace()))
@@ -161,7 +161,7 @@ func (w *World) checkRetained() {
 		// referrers listings of kept subjects still list their kept referrers
 		if w.k.referrerOn() {
 			for _, s := range sortedKeys(keep) {
-				if _, ok := mr.mans[s]; !ok {
+				if _, ok := mr.mans[s]; !ok || keep[s] < keepMan {
 					continue
 				}
 				must, _ := mr.referrers(s)
@@ -655,6 +655,22 @@ func planC06(prop string, seed uint64, tier string, idx int) *Plan {
 		}
 		bad := g.r.intn(len(g.p.Repos))
 		kinds[bad] = g.r.str("garbage", "indexdir", "removed", "noblobs")
+		if kinds[bad] == "removed" {
+			// removing a directory takes nested repositories with it: only a repository without nested ones is removed
+			kinds[bad] = "healthy"
+			for i, r := range g.p.Repos {
+				leaf := true
+				for _, o := range g.p.Repos {
+					if strings.HasPrefix(o, r+"/") {
+						leaf = false
+					}
+				}
+				if leaf {
+					bad = i
+				}
+			}
+			kinds[bad] = "removed"
+		}
 		g.p.Extra["gcmix"] = kinds
 	}
 	images, indexes, arts := g.gcGraph()
